@@ -23,31 +23,36 @@ package storage
 // ---- trusted sinks (C15): an I/O callee raises ghost.fail iff it reports an error
 //
 //@ trusted func (WriteBucket) Put(ctx, path, options) (w, err)
-//@   modifies ghost.fail, ghost.wfail, ghost.sinkPaths, ghost.lastPutOptions
+//@   modifies ghost.fail, ghost.wfail, ghost.sinkPaths, ghost.sinkBuckets, ghost.lastPutOptions
 //@   ensures  ghost.fail == (old(ghost.fail) || err != nil)
 //@   ensures  ghost.wfail == (old(ghost.wfail) || err != nil)
 //@   ensures  err == nil ==> w != nil
 //@   ensures  ghost.sinkPaths == add(old(ghost.sinkPaths), path)
+//@   ensures  ghost.sinkBuckets == add(old(ghost.sinkBuckets), this)
 //@   ensures  ghost.lastPutOptions == options
 //@ trusted func (ReadBucket) Get(ctx, path) (r, err)
-//@   modifies ghost.fail, ghost.sinkPaths
+//@   modifies ghost.fail, ghost.sinkPaths, ghost.sinkBuckets
 //@   ensures  ghost.fail == (old(ghost.fail) || err != nil)
 //@   ensures  err == nil ==> r != nil
 //@   ensures  ghost.sinkPaths == add(old(ghost.sinkPaths), path)
+//@   ensures  ghost.sinkBuckets == add(old(ghost.sinkBuckets), this)
 //@ trusted func (ReadBucket) Stat(ctx, path) (r, err)
-//@   modifies ghost.sinkPaths
+//@   modifies ghost.sinkPaths, ghost.sinkBuckets
 //@   ensures  err == nil ==> r != nil
 //@   ensures  ghost.sinkPaths == add(old(ghost.sinkPaths), path)
+//@   ensures  ghost.sinkBuckets == add(old(ghost.sinkBuckets), this)
 //@ trusted func (WriteBucket) Delete(ctx, path) (err)
-//@   modifies ghost.fail, ghost.wfail, ghost.sinkPaths
+//@   modifies ghost.fail, ghost.wfail, ghost.sinkPaths, ghost.sinkBuckets
 //@   ensures  ghost.fail == (old(ghost.fail) || err != nil)
 //@   ensures  ghost.wfail == (old(ghost.wfail) || err != nil)
 //@   ensures  ghost.sinkPaths == add(old(ghost.sinkPaths), path)
+//@   ensures  ghost.sinkBuckets == add(old(ghost.sinkBuckets), this)
 //@ trusted func (WriteBucket) DeleteAll(ctx, prefix) (err)
-//@   modifies ghost.fail, ghost.wfail, ghost.sinkPaths
+//@   modifies ghost.fail, ghost.wfail, ghost.sinkPaths, ghost.sinkBuckets
 //@   ensures  ghost.fail == (old(ghost.fail) || err != nil)
 //@   ensures  ghost.wfail == (old(ghost.wfail) || err != nil)
 //@   ensures  ghost.sinkPaths == add(old(ghost.sinkPaths), prefix)
+//@   ensures  ghost.sinkBuckets == add(old(ghost.sinkBuckets), this)
 //@ trusted func (WriteObject) SetExternalPath(externalPath) (err)
 //@   modifies ghost.fail, ghost.wfail
 //@   ensures  ghost.fail == (old(ghost.fail) || err != nil)
@@ -71,28 +76,28 @@ package storage
 //
 //@ func copyReadObject
 //@   property C15
-//@   modifies ghost.fail, ghost.wfail, ghost.sinkPaths, ghost.lastPutOptions
+//@   modifies ghost.fail, ghost.wfail, ghost.sinkPaths, ghost.sinkBuckets, ghost.lastPutOptions
 //@   ensures  reported: ghost.fail && !old(ghost.fail) ==> retErr != nil
 //@   ensures  write-reported: ghost.wfail && !old(ghost.wfail) ==> retErr != nil
 //@   canary ensures retErr == nil
 //
 //@ func copyPath
 //@   property C15
-//@   modifies ghost.fail, ghost.wfail, ghost.sinkPaths, ghost.lastPutOptions
+//@   modifies ghost.fail, ghost.wfail, ghost.sinkPaths, ghost.sinkBuckets, ghost.lastPutOptions
 //@   ensures  reported: ghost.fail && !old(ghost.fail) ==> retErr != nil
 //@   ensures  write-reported: ghost.wfail && !old(ghost.wfail) ==> retErr != nil
 //@   canary ensures retErr == nil
 //
 //@ func CopyReader
 //@   property C15
-//@   modifies ghost.fail, ghost.wfail, ghost.sinkPaths, ghost.lastPutOptions
+//@   modifies ghost.fail, ghost.wfail, ghost.sinkPaths, ghost.sinkBuckets, ghost.lastPutOptions
 //@   ensures  reported: ghost.fail && !old(ghost.fail) ==> retErr != nil
 //@   ensures  write-reported: ghost.wfail && !old(ghost.wfail) ==> retErr != nil
 //@   canary ensures retErr == nil
 //
 //@ func CopyReadObject
 //@   property C15
-//@   modifies ghost.fail, ghost.wfail, ghost.sinkPaths, ghost.lastPutOptions, heap
+//@   modifies ghost.fail, ghost.wfail, ghost.sinkPaths, ghost.sinkBuckets, ghost.lastPutOptions, heap
 //@   ensures  reported: ghost.fail && !old(ghost.fail) ==> retErr != nil
 //@   ensures  write-reported: ghost.wfail && !old(ghost.wfail) ==> retErr != nil
 //@   loop 0 invariant ghost.fail ==> old(ghost.fail)
@@ -100,7 +105,7 @@ package storage
 //
 //@ func CopyPath
 //@   property C15
-//@   modifies ghost.fail, ghost.wfail, ghost.sinkPaths, ghost.lastPutOptions, heap
+//@   modifies ghost.fail, ghost.wfail, ghost.sinkPaths, ghost.sinkBuckets, ghost.lastPutOptions, heap
 //@   ensures  reported: ghost.fail && !old(ghost.fail) ==> err != nil
 //@   ensures  write-reported: ghost.wfail && !old(ghost.wfail) ==> err != nil
 //@   loop 0 invariant ghost.fail ==> old(ghost.fail)
@@ -108,7 +113,7 @@ package storage
 //
 //@ func Copy(ctx, from, to, options) (n, err)
 //@   property C15
-//@   modifies ghost.fail, ghost.wfail, ghost.sinkPaths, ghost.lastPutOptions, heap
+//@   modifies ghost.fail, ghost.wfail, ghost.sinkPaths, ghost.sinkBuckets, ghost.lastPutOptions, heap
 //@   ensures  reported: ghost.fail && !old(ghost.fail) ==> err != nil
 //@   ensures  write-reported: ghost.wfail && !old(ghost.wfail) ==> err != nil
 //@   loop 0 invariant ghost.fail ==> old(ghost.fail)
@@ -118,7 +123,7 @@ package storage
 // (closure 0 is the job literal); AllPaths is a read-only walk.
 //@ func copyPaths(ctx, from, to, copyExternalAndLocalPaths, atomicOpt) (n, err)
 //@   property C15
-//@   modifies ghost.fail, ghost.wfail, ghost.sinkPaths, ghost.lastPutOptions, heap
+//@   modifies ghost.fail, ghost.wfail, ghost.sinkPaths, ghost.sinkBuckets, ghost.lastPutOptions, heap
 //@   ensures  reported: ghost.fail && !old(ghost.fail) ==> err != nil
 //@   ensures  write-reported: ghost.wfail && !old(ghost.wfail) ==> err != nil
 //@   loop 0 invariant ghost.fail ==> old(ghost.fail)
@@ -130,48 +135,50 @@ package storage
 //
 //@ trusted iterator func (ReadBucket) Walk(ctx, prefix, f) (err)
 //@   yields via f (objectInfo ObjectInfo)
-//@   modifies ghost.fail, ghost.sinkPaths
-//@   begins ghost.sinkPaths == add(old(ghost.sinkPaths), prefix) && ghost.fail == old(ghost.fail)
+//@   modifies ghost.fail, ghost.sinkPaths, ghost.sinkBuckets
+//@   begins ghost.sinkPaths == add(old(ghost.sinkPaths), prefix) && ghost.fail == old(ghost.fail) && ghost.sinkBuckets == add(old(ghost.sinkBuckets), this)
 //@   where objectInfo != nil
 //@   mayfail
 //
 //@ func AllPaths(ctx, readBucket, prefix) (r, err)
 //@   property C15
-//@   modifies ghost.fail, ghost.wfail, ghost.sinkPaths, ghost.lastPutOptions
+//@   modifies ghost.fail, ghost.wfail, ghost.sinkPaths, ghost.sinkBuckets, ghost.lastPutOptions
 //@   ensures  reported: ghost.fail && !old(ghost.fail) ==> err != nil
 //@   ensures  write-reported: ghost.wfail && !old(ghost.wfail) ==> err != nil
 //@   closure 0 invariant ghost.fail ==> old(ghost.fail)
 //@   closure 0 invariant ghost.wfail ==> old(ghost.wfail)
 //
 //@ func ReadPath(ctx, readBucket, path) (data, retErr)
-//@   property C15
-//@   modifies ghost.fail, ghost.sinkPaths
+//@   property C15 C09
+//@   ensures only-this-bucket: forall b ref :: b in ghost.sinkBuckets && !(b in old(ghost.sinkBuckets)) ==> b == readBucket
+//@   modifies ghost.fail, ghost.sinkPaths, ghost.sinkBuckets
 //@   ensures  reported: ghost.fail && !old(ghost.fail) ==> retErr != nil
 //@   canary ensures retErr == nil
 //
 //@ func PutPath
 //@   property C15 C09
 //@   ensures forwards-options: retErr == nil ==> ghost.lastPutOptions == options
-//@   modifies ghost.fail, ghost.wfail, ghost.sinkPaths, ghost.lastPutOptions
+//@   ensures only-this-bucket: forall b ref :: b in ghost.sinkBuckets && !(b in old(ghost.sinkBuckets)) ==> b == writeBucket
+//@   modifies ghost.fail, ghost.wfail, ghost.sinkPaths, ghost.sinkBuckets, ghost.lastPutOptions
 //@   ensures  reported: ghost.fail && !old(ghost.fail) ==> retErr != nil
 //@   ensures  write-reported: ghost.wfail && !old(ghost.wfail) ==> retErr != nil
 //@   canary ensures retErr == nil
 //
 //@ func ForReadObject
 //@   property C15
-//@   modifies ghost.fail, ghost.wfail, ghost.sinkPaths, ghost.lastPutOptions, heap
+//@   modifies ghost.fail, ghost.wfail, ghost.sinkPaths, ghost.sinkBuckets, ghost.lastPutOptions, heap
 //@   ensures  reported: ghost.fail && !old(ghost.fail) ==> retErr != nil
 //@   ensures  write-reported: ghost.wfail && !old(ghost.wfail) ==> retErr != nil
 //
 //@ func ForWriteObject
 //@   property C15
-//@   modifies ghost.fail, ghost.wfail, ghost.sinkPaths, ghost.lastPutOptions, heap
+//@   modifies ghost.fail, ghost.wfail, ghost.sinkPaths, ghost.sinkBuckets, ghost.lastPutOptions, heap
 //@   ensures  reported: ghost.fail && !old(ghost.fail) ==> retErr != nil
 //@   ensures  write-reported: ghost.wfail && !old(ghost.wfail) ==> retErr != nil
 //
 //@ func WalkReadObjects(ctx, readBucket, prefix, f) (err)
 //@   property C15
-//@   modifies ghost.fail, ghost.wfail, ghost.sinkPaths, ghost.lastPutOptions, heap
+//@   modifies ghost.fail, ghost.wfail, ghost.sinkPaths, ghost.sinkBuckets, ghost.lastPutOptions, heap
 //@   ensures  reported: ghost.fail && !old(ghost.fail) ==> err != nil
 //@   ensures  write-reported: ghost.wfail && !old(ghost.wfail) ==> err != nil
 //@   closure 0 invariant ghost.fail ==> old(ghost.fail)
@@ -215,7 +222,7 @@ package storage
 // Every path handed to the delegate during a call lies inside the mapper's root and is the mapped, validated path.
 //@ func (r *mapReadBucketCloser) Get(ctx, path) (obj, err)
 //@   property C13 C14
-//@   modifies heap, ghost.fail, ghost.wfail, ghost.sinkPaths
+//@   modifies heap, ghost.fail, ghost.wfail, ghost.sinkPaths, ghost.sinkBuckets
 //@   requires validRel(rootOf(r.mapper))
 //@   ensures confined: forall q string :: q in ghost.sinkPaths && !(q in old(ghost.sinkPaths)) ==> validRel(q) && inside(rootOf(old(r.mapper)), q) && q == old(r.mapper).MapPath(Normalize(path))
 //@   ensures reported {C15}: ghost.fail && !old(ghost.fail) ==> err != nil
@@ -223,20 +230,20 @@ package storage
 //
 //@ func (r *mapReadBucketCloser) Stat(ctx, path) (obj, err)
 //@   property C13 C14
-//@   modifies heap, ghost.sinkPaths
+//@   modifies heap, ghost.sinkPaths, ghost.sinkBuckets
 //@   requires validRel(rootOf(r.mapper))
 //@   ensures confined: forall q string :: q in ghost.sinkPaths && !(q in old(ghost.sinkPaths)) ==> validRel(q) && inside(rootOf(old(r.mapper)), q) && q == old(r.mapper).MapPath(Normalize(path))
 //
 //@ func (r *mapReadBucketCloser) Walk(ctx, prefix, f) (err)
 //@   property C13 C14
-//@   modifies heap, ghost.fail, ghost.wfail, ghost.sinkPaths
+//@   modifies heap, ghost.fail, ghost.wfail, ghost.sinkPaths, ghost.sinkBuckets
 //@   requires validRel(rootOf(r.mapper))
 //@   ensures confined: forall q string :: q in ghost.sinkPaths && !(q in old(ghost.sinkPaths)) ==> validRel(q) && inside(rootOf(old(r.mapper)), q) && q == old(r.mapper).MapPath(Normalize(prefix))
 //@   closure 0 invariant forall q string :: q in ghost.sinkPaths && !(q in old(ghost.sinkPaths)) ==> validRel(q) && inside(rootOf(old(r.mapper)), q) && q == old(r.mapper).MapPath(Normalize(prefix))
 //
 //@ func (w *mapWriteBucketCloser) Put(ctx, path, opts) (obj, err)
 //@   property C13 C14 C15
-//@   modifies heap, ghost.fail, ghost.wfail, ghost.sinkPaths, ghost.lastPutOptions
+//@   modifies heap, ghost.fail, ghost.wfail, ghost.sinkPaths, ghost.sinkBuckets, ghost.lastPutOptions
 //@   requires validRel(rootOf(w.mapper))
 //@   ensures confined: forall q string :: q in ghost.sinkPaths && !(q in old(ghost.sinkPaths)) ==> validRel(q) && inside(rootOf(old(w.mapper)), q) && q == old(w.mapper).MapPath(Normalize(path))
 //@   ensures forwards-options {C15}: err == nil ==> ghost.lastPutOptions == opts
@@ -245,7 +252,7 @@ package storage
 //
 //@ func (w *mapWriteBucketCloser) Delete(ctx, path) (err)
 //@   property C13 C14
-//@   modifies heap, ghost.fail, ghost.wfail, ghost.sinkPaths
+//@   modifies heap, ghost.fail, ghost.wfail, ghost.sinkPaths, ghost.sinkBuckets
 //@   requires validRel(rootOf(w.mapper))
 //@   ensures confined: forall q string :: q in ghost.sinkPaths && !(q in old(ghost.sinkPaths)) ==> validRel(q) && inside(rootOf(old(w.mapper)), q) && q == old(w.mapper).MapPath(Normalize(path))
 //@   ensures reported {C15}: ghost.fail && !old(ghost.fail) ==> err != nil
@@ -253,7 +260,7 @@ package storage
 //
 //@ func (w *mapWriteBucketCloser) DeleteAll(ctx, prefix) (err)
 //@   property C13 C14
-//@   modifies heap, ghost.fail, ghost.wfail, ghost.sinkPaths
+//@   modifies heap, ghost.fail, ghost.wfail, ghost.sinkPaths, ghost.sinkBuckets
 //@   requires validRel(rootOf(w.mapper))
 //@   ensures confined: forall q string :: q in ghost.sinkPaths && !(q in old(ghost.sinkPaths)) ==> validRel(q) && inside(rootOf(old(w.mapper)), q) && q == old(w.mapper).MapPath(Normalize(prefix))
 //@   ensures reported {C15}: ghost.fail && !old(ghost.fail) ==> err != nil
@@ -262,4 +269,14 @@ package storage
 //@ trusted func replaceReadObjectCloserPath(readObjectCloser, path) (r)
 //@ trusted func replaceObjectInfoPath(objectInfo, path) (r)
 //@ trusted func replaceWriteObjectCloserExternalAndLocalPathsNotSupported(writeObjectCloser) (r)
+//@   ensures r != nil
+//
+// a mapped view is a new object, distinct from the bucket it wraps (trusted: it is a freshly built composite)
+//@ trusted func MapReadWriteBucket(readWriteBucket, mappers) (r)
+//@   ensures r != nil && (len(mappers) > 0 ==> r != readWriteBucket)
+//@ trusted func MapWriteBucket(writeBucket, mappers) (r)
+//@   ensures r != nil && (len(mappers) > 0 ==> r != writeBucket)
+//@ trusted func MapReadBucket(readBucket, mappers) (r)
+//@   ensures r != nil && (len(mappers) > 0 ==> r != readBucket)
+//@ trusted pure func MapOnPrefix(prefix) (r)
 //@   ensures r != nil
